@@ -90,6 +90,12 @@ CHECKS = {
    text="All histories of length <=4 over a 19-operation alphabet (quick; 34 operations thorough) on a two-file package: 131k histories. After each history every file is written twice; import specs must equal referenced ∪ forced, local names must be unique and differ from package-level identifiers, every planted reference must resolve (Info.Uses) to the intended path, the package must type-check, the second write must be byte-identical. Write is itself an operation, so name fixing and dirty-flag handling are explored in every position.",
    note="Trusted: go/types 1.23.5; the reference model of the history; histories the builder rejects (redeclarations) are pruned.",
    design="§4 C09"),
+ "C15": dict(
+   category="model_checking",
+   technique="choice-point DFS (deviation-bounded, with replay) over the iteration order of every map range the library executes, via a mechanical source rewrite in the build overlay; oracle = byte equality with the default-order execution + a second-process digest",
+   text="For 5 histories (imports in two files, XGo dependency marker, overload families/methods/named types, labels, builtin tables) every permutation of every reached map range (all n! for n<=4 quick / n<=8 thorough) is explored with up to 2 (3) simultaneous deviations; every execution's files and error multiset must equal the baseline; baseline digests are recomputed in a second process. The rewrite is regenerated from /repo on every run, so new map ranges are picked up automatically (listed in evidence).",
+   note="Trusted: the overlay rewrite (every explored order is a legal Go iteration order); absence of other nondeterminism sources on output paths.",
+   design="§4 C15"),
 }
 
 NOT_APPLICABLE = {
